@@ -48,6 +48,7 @@ fn main() {
                     }
                     "universe-cos" => cctx.set_universe(c),
                     "cos" => cos::replay_cos(&cctx, c, &mut rep),
+                    "perm" => cos::replay_perm(c, &mut rep),
                     "req" => req::replay_req(&rctx, c, &mut rep),
                     "list" => lists::replay_list(c, &mut rep),
                     "net" => net::replay_net(&nctx, c, &mut rep),
